@@ -1,6 +1,7 @@
 (* C08/Extract.v — extraction of the executable model (ExtrOcamlBasic only) *)
 Require Extraction. Require ExtrOcamlBasic.
-From NV Require Import Base.Bytes C16.Tables C16.Model C08.Model C08.ModelSlice.
+From NV Require Import Base.Bytes C16.Tables C16.Model C08.Model C08.ModelSlice C08.ModelMat.
 Extraction Language OCaml.
 Extraction "c08_model.ml" decode_single decode_pair_hdr decode_img decode_mgh decode_tck decode_trk
-  trk_offs_now decode_partial trk_lazy_retry tck_lazy_retry.
+  trk_offs_now decode_partial trk_lazy_retry tck_lazy_retry
+  decode_partial_raising spm_mat_class.
